@@ -407,3 +407,7 @@ Lemma example_nested_array_reported :
   (exists p, front_end_chars example_names example_nested_array = FOk p /\ validate p = Ok [])
   /\ validate_text example_names example_nested_array = Ok [MCheck (KNestedArray, CLitJson 0 [0] 0)].
 Proof. split; [eexists; split|]; vm_compute; reflexivity. Qed.
+
+Lemma example_deep_not_valid :
+  List.length (example_deep_not 300) = 357 /\ validate_text example_names (example_deep_not 300) = Ok [].
+Proof. vm_compute. split; reflexivity. Qed.
